@@ -46,7 +46,7 @@ def n_trace(ctx):
 
 
 def _args(ctx):
-    return ["-seed", str(ctx.seed), "-synth", str(2500 if ctx.thorough else 250)]
+    return ["-seed", str(ctx.seed), "-synth", str(2500 if ctx.thorough else 250), "-work", ctx.work]
 
 
 def correspond(ctx):
@@ -60,7 +60,7 @@ def correspond(ctx):
     for r_ in [x for x in tcases if x["k"] == "run"]:
         if not r_["success"]:
             c.mismatches.append({"kind": "traced-run-failed", "run": r_})
-    allc = cases + [x for x in tcases if x["k"] in ("nmove", "mineral", "denit", "denitmo", "till")]
+    allc = cases + [x for x in tcases if x["k"] in ("nmove", "mineral", "denit", "denitmo", "till", "harv")]
     nitrolib.eval_cases(ctx, c, allc)
     seen = set()
     for x in allc:
@@ -74,6 +74,14 @@ def correspond(ctx):
                 c.bump("nmove:drain-active" + ("-with-upward-flow" if neg else ""))
         elif x["k"] == "mineral":
             seen.add(("m", tuple(map(tuple, x["layers"]))))
+        elif x["k"] == "harv":
+            i = x["in"]
+            seen.add(("h", i["pesum"], i["jn"], tuple(i["nfos"])))
+            jn = float.fromhex(i["jn"])
+            c.bump("harvest:residues=" + {0.0: "stay", 1.0: "removed", 2.0: "whole-plant-stays"}.get(jn, "share-removed")
+                   + ("/permanent-crop" if i["dauer"] else "") + ("/first-entry" if i["first"] else ""))
+            c.bump("harvest:crop-row=" + ("last" if i["row"] == i["rows"] - 1 else "first" if i["row"] == 0 else "middle")
+                   + ("" if i["final_newline"] else "/no-final-newline"))
         elif x["k"] == "till":
             seen.add(("t", x["pre"]["eint"], tuple(x["pre"]["nfos"])))
             c.bump("tillage:depth=%g" % float.fromhex(x["pre"]["eint"]))
